@@ -169,6 +169,12 @@ def treeOutstanding (w : World) (c : EId) : Bool :=
         (match (w.inst j).took with | some (_, x) => x == d | none => false) ||
         (match w.act (.inst j) with | some A => A.ev == d | none => false)))
 
+/-- is `d` reached from `t` through the tracked children lists (what the timeout cleanup walks; an event that merely names
+    `t` as its parent - an explicit parent id given by the client - is not) -/
+def childReach (w : World) : Nat → EId → EId → Bool
+  | 0, t, d => t == d
+  | fuel + 1, t, d => t == d || (w.ev t).children.any fun c => childReach w fuel c d
+
 /-- what can leave the tree of `e` stuck with a result that is never made terminal: an abandoned activation counts only
     when its event is not a descendant of the abandoning handler's event (descendants have their pending results cancelled
     together with that handler, C10) -/
@@ -176,7 +182,7 @@ def stuckSigs (w : World) (m : Mon) (e : EId) : List String :=
   (hangSigs w m e).filter (· != "F5") ++
   -- an abandoned activation is *covered* when, after it was abandoned, a handler of one of its event's ancestors recorded
   -- a timeout: that handler's cleanup cancels the abandoned event's pending results (C10); otherwise nothing ever does
-  (if (m.aborted.zipIdx).any (fun (d, k) => desc w d.2 e && !m.timedOut.any (fun (t, n) => k < n && desc w d.2 t))
+  (if (m.aborted.zipIdx).any (fun (d, k) => desc w d.2 e && !m.timedOut.any (fun (t, n) => k < n && childReach w (w.ne + 1) t d.2))
    then ["F5"] else [])
 
 def busHangSigs (w : World) (m : Mon) (b : BId) : List String :=
